@@ -101,6 +101,22 @@ def _decorator_names(node: ast.FunctionDef | ast.ClassDef) -> list[str]:
     return out
 
 
+_REF_CACHE: list = []
+
+
+def _reference_functions() -> Optional[set]:
+    """relpath::qualname of every function of the reference tree (the one the rules were confirmed on)"""
+    if not _REF_CACHE:
+        path = os.path.join(os.path.dirname(os.path.abspath(__file__)), "reference_functions.json")
+        try:
+            import json
+            with open(path) as fh:
+                _REF_CACHE.append(set(json.load(fh)["functions"]))
+        except OSError:
+            _REF_CACHE.append(None)
+    return _REF_CACHE[0]
+
+
 class Model:
     """Whole-repository model."""
 
@@ -144,6 +160,12 @@ class Model:
         self._callgraph: Optional[dict[FuncInfo, set[FuncInfo]]] = None
         self.unresolved_calls = 0
         self.resolved_calls = 0
+        # helpers that the reference tree does not have are looked through (see framelint.inline)
+        self.inlining: dict = {}
+        ref = _reference_functions()
+        if ref is not None and os.environ.get("FRAMELINT_NO_HELPER_INLINING") != "1":
+            from .inline import inline_new_helpers
+            self.inlining = inline_new_helpers(self, ref)
 
     # ------------------------------------------------------------------ build
     def _add_module(self, rel: str, src: str) -> None:
@@ -272,13 +294,16 @@ class Model:
             raise AnalysisError(f"anchor class {relpath}::{name} not found")
         return m.classes[name]
 
-    def all_functions(self) -> Iterator[FuncInfo]:
+    def all_functions(self, include_inlined: bool = False) -> Iterator[FuncInfo]:
+        """the functions of the program; helpers absent from the reference tree whose every call was inlined into its
+        callers (framelint.inline) are not functions of their own any more"""
         for m in self.modules.values():
             seen = set()
             for f in m.functions.values():
                 if id(f) not in seen:
                     seen.add(id(f))
-                    yield f
+                    if include_inlined or not getattr(f, "absorbed", False):
+                        yield f
 
     def find_class(self, name: str) -> list[ClassInfo]:
         out = []
